@@ -249,6 +249,25 @@ func (p *prop) tagsAndOracle(k *kase, impl string, o *obs, out *core.Outcome) {
 		fail("trusted-flag-wrong", fmt.Sprintf("trusted_proxy var is %v but the peer %q is in the server's trusted ranges: %v", o.trusted, k.remote, srvTrusted))
 	}
 
+	// ---------------- OR: every attempt of the proxy loop carries the same forwarding fields
+	for i := 1; i < len(o.attempts); i++ {
+		for _, n := range fwdNames {
+			a, aok := o.attempts[0][n]
+			b, bok := o.attempts[i][n]
+			_, _ = aok, bok // nil and absent both mean "not sent"
+			if len(a) != len(b) || strings.Join(a, "\x00") != strings.Join(b, "\x00") {
+				fail("retried-attempt-forwarded-headers-differ", fmt.Sprintf("attempt %d sends %s = %q, the first attempt sent %q (peer %q)", i+1, n, b, a, k.remote))
+				break
+			}
+		}
+	}
+	if len(o.attempts) > 1 {
+		tag(fmt.Sprintf("retry:attempts=%d,hops=%d", len(o.attempts), k.hops))
+	}
+	if o.sent && len(o.attempts) != k.fails+1 {
+		fail("harness-attempt-count", fmt.Sprintf("%d attempts, expected %d", len(o.attempts), k.fails+1))
+	}
+
 	// ---------------- O6: a remote address that is not host:port / not an IP yields no client ip and sends nothing forged
 	if !peer.splitOK {
 		if o.clientIP != "" {
@@ -269,23 +288,6 @@ func (p *prop) tagsAndOracle(k *kase, impl string, o *obs, out *core.Outcome) {
 			fail("non-ip-remote-accepted", fmt.Sprintf("remote %q: client_ip %q, sent upstream: %v", k.remote, o.clientIP, o.sent))
 		}
 		return
-	}
-	// ---------------- OR: every attempt of the proxy loop carries the same forwarding fields
-	for i := 1; i < len(o.attempts); i++ {
-		for _, n := range fwdNames {
-			a, aok := o.attempts[0][n]
-			b, bok := o.attempts[i][n]
-			if aok != bok || (a == nil) != (b == nil) || strings.Join(a, "\x00") != strings.Join(b, "\x00") {
-				fail("retried-attempt-forwarded-headers-differ", fmt.Sprintf("attempt %d sends %s = %q, the first attempt sent %q (peer %q)", i+1, n, b, a, k.remote))
-				break
-			}
-		}
-	}
-	if len(o.attempts) > 1 {
-		tag(fmt.Sprintf("retry:attempts=%d,hops=%d", len(o.attempts), k.hops))
-	}
-	if o.sent && len(o.attempts) != k.fails+1 {
-		fail("harness-attempt-count", fmt.Sprintf("%d attempts, expected %d", len(o.attempts), k.fails+1))
 	}
 	if !o.sent {
 		fail("valid-remote-refused", fmt.Sprintf("remote %q: nothing was sent upstream (%s)", k.remote, impl))
@@ -309,13 +311,17 @@ func (p *prop) tagsAndOracle(k *kase, impl string, o *obs, out *core.Outcome) {
 		for i, n := range fwdNames {
 			v, ok := o.out[n]
 			switch {
+			case k.hops == 2 && i == 2:
+				if ok {
+					fail("header-up-delete-not-applied", fmt.Sprintf("the operator deletes X-Forwarded-Host but %q was sent", v))
+				}
 			case k.omit[i] && !conn:
-				if !(ok && v == nil) {
+				if len(v) != 0 { // nil, or dropped when the header map is copied for header_up: not sent either way
 					fail("omit-not-honoured", fmt.Sprintf("%s was nil before reverse_proxy but %q was sent", n, v))
 				}
 			case k.omit[i] && conn:
 				// the client asked for the (nil) field to be dropped hop-by-hop: it comes back with the connection's value
-				if !(len(v) == 1 && v[0] == connVals[i]) && !(ok && v == nil) {
+				if !(len(v) == 1 && v[0] == connVals[i]) && len(v) != 0 {
 					fail("untrusted-forwarded-value-not-from-connection", fmt.Sprintf("%s = %q, connection says %q", n, v, connVals[i]))
 				}
 			default:
@@ -443,8 +449,14 @@ func (p *prop) tagsAndOracle(k *kase, impl string, o *obs, out *core.Outcome) {
 			h.Add(f.name, f.value)
 		}
 		for i, n := range fwdNames {
+			if k.hops == 2 && i == 2 {
+				if v, ok := o.out[n]; ok {
+					fail("header-up-delete-not-applied", fmt.Sprintf("the operator deletes X-Forwarded-Host but %q was sent", v))
+				}
+				continue
+			}
 			if k.omit[i] {
-				if v, ok := o.out[n]; !(ok && v == nil) {
+				if v := o.out[n]; len(v) != 0 {
 					fail("omit-not-honoured", fmt.Sprintf("%s was nil before reverse_proxy but %q was sent", n, v))
 				}
 				continue
